@@ -75,3 +75,10 @@ func init() {
 			"r.conn.Delete(ctx, poolID, branchName, tags, commit)", "r.conn.Delete(ctx, poolID, branchName, tags, api.CommitMessage{})", "C19-K4", "remote).Delete parameter commit"},
 	)
 }
+
+func init() {
+	addMutants(
+		Mutant{"C10", "c10-spill-final-results", "runtime/sam/op/groupby/groupby.go", "Aggregator.spillTable",
+			"batch, err := a.readTable(true, true, ref)", "batch, err := a.readTable(true, a.partialsOut, ref)", "C10-S4", "spillTable -> readTable"},
+	)
+}
